@@ -69,6 +69,10 @@ type World struct {
 	Order   map[string][]string
 	podSeq  int
 	lastGet map[string]*v1.Node
+	liveNewScan bool
+	Live        bool            // the controller's own loop (RunForever) drives the scans: the listers refresh themselves at each scan start
+	ScanNo      int             // Live: scans started so far
+	OnScanStart func(scan int)  // Live: called at the start of each scan, before the lister snapshot is taken
 	T0      time.Time // real-time mode: concrete time of abstract instant 0
 	Late    bool      // real-time mode: a step overran its tick budget; the history is no longer trustworthy
 	NoGauges bool
@@ -162,6 +166,13 @@ type podLister struct{ w *World }
 
 func (l podLister) List(labels.Selector) ([]*v1.Pod, error) {
 	w := l.w
+	if w.Live && w.liveNewScan {
+		// first group of a new scan (the scan began with the provider refresh, see GoLive)
+		w.liveNewScan = false
+		w.Project()
+		w.prepareSnapshot()
+		w.curIdx = -1
+	}
 	w.curIdx++ // every group scan starts by listing pods
 	g := w.curGroup()
 	fail := w.J.Hit("list_pods", g)
@@ -892,6 +903,34 @@ func (w *World) Register(g, id string, o NodeObj) bool {
 	}
 	w.addDaemonPod(g, id)
 	return true
+}
+
+// GoLive hands the scans over to the controller's own loop (RunForever): every scan begins with the provider refresh, at which
+// point OnScanStart runs (it may change the world or the fault set) and the listers take a fresh snapshot.
+func (w *World) GoLive() {
+	w.Live = true
+	w.AWS.OnDescribe = func() {
+		w.ScanNo++
+		w.liveNewScan = true
+		if w.OnScanStart != nil {
+			w.OnScanStart(w.ScanNo)
+		}
+	}
+}
+
+// LoseInstance removes an instance from its ASG behind escalator's back (its Node object stays).
+func (w *World) LoseInstance(g, id string) bool {
+	a := w.AWS.Asgs[AsgName(g)]
+	if a == nil {
+		return false
+	}
+	for i, inst := range a.Instances {
+		if inst.ID == id {
+			a.Instances = append(a.Instances[:i:i], a.Instances[i+1:]...)
+			return true
+		}
+	}
+	return false
 }
 
 func (w *World) AsgEdit(g string, min, max int) bool {
